@@ -11,24 +11,31 @@
                              new_function_type, complete_struct_or_union, ...) reached through
                              src/cffi/model.py, i.e. after the text was parsed: the property's
                              "well-formed but invalid type"
-                   "-"       no exception / not known (compiled FFI: all of it is C)]
+                   "-"       no exception / not known (compiled FFI: all of it is C),
+        need   |-> number of opcodes the type string needs in the C parser's buffer when the
+                   specification can tell (ErrorsLimit!NeedOps for the near-limit family), else 0]
    The input space is not constrained at all ("for any text"); what TLC enumerates of it is the
    token-level near-miss set of CDecl.tla, the rest are byte-level mutants made by the harness. *)
 EXTENDS Naturals, Sequences, FiniteSets, TLC
 
 CffiErrors   == {"CDefError", "FFIError", "NotImplementedError", "VerificationError", "VerificationMissing"}
 InvalidType  == {"TypeError", "ValueError", "OverflowError"}   \* OverflowError: array size beyond ssize_t
-Named        == CffiErrors \cup InvalidType \cup {"ok", "ffi.error", "crash"}
+ResourceLimit == {"DepthLimit"}   \* RuntimeError 'type-building recursion too deep' of realize_c_type's guard
+                                  \* (more than 1000 nested levels): not an error of the text, tolerated
+Named        == CffiErrors \cup InvalidType \cup ResourceLimit \cup {"ok", "ffi.error", "crash"}
 Others       == {"ZeroDivisionError", "AssertionError", "IndexError", "KeyError", "AttributeError",
                  "RecursionError", "UnicodeError", "Exception"}
 
 InlineG(e)   == \/ e.cls = "ok"
                 \/ e.cls \in CffiErrors
                 \/ e.api = "typeof" /\ e.cls \in InvalidType /\ e.origin = "backend"
-CompiledG(e) == e.api = "typeof" /\ e.cls \in {"ok", "ffi.error"} \cup InvalidType
+Limit == 1200          \* FFI_COMPLEXITY_OUTPUT (src/c/ffi_obj.c): entries of the opcode buffer; see ErrorsLimit.tla
+CompiledG(e) == /\ e.api = "typeof" /\ e.cls \in {"ok", "ffi.error"} \cup InvalidType \cup ResourceLimit
+                /\ (e.need > Limit => e.cls = "ffi.error")   \* accepting it = writing past the buffer
 
 Allowed(e) == IF e.ffi = "inline" THEN InlineG(e) ELSE CompiledG(e)
 Clause(e)  == IF e.cls = "crash" THEN "crash"
+              ELSE IF e.ffi = "compiled" /\ e.need > Limit /\ e.cls \in {"ok"} \cup InvalidType THEN "over-limit-accepted"
               ELSE IF e.ffi = "inline" THEN "escapes-" \o e.api ELSE "escapes-compiled-typeof"
 
 -----------------------------------------------------------------------------
@@ -37,12 +44,14 @@ Clause(e)  == IF e.cls = "crash" THEN "crash"
    cffi errors are always allowed in-line, and the compiled FFI never raises them. *)
 VARIABLE e
 Outcomes == [ffi : {"inline", "compiled"}, api : {"cdef", "typeof"}, cls : Named \cup Others,
-             origin : {"parser", "backend", "-"}]
+             origin : {"parser", "backend", "-"}, need : {0, 1200, 1201}]
 Init == e \in {o \in Outcomes : o.ffi = "compiled" => o.api = "typeof"}
 Spec == Init /\ [][UNCHANGED e]_e
 ForbiddenRejected == e.cls \in Others \cup {"crash"} => ~Allowed(e)
 CffiErrorsAllowedInline == e.ffi = "inline" /\ e.cls \in CffiErrors => Allowed(e)
 ParserValueErrorRejected == e.ffi = "inline" /\ e.cls \in InvalidType /\ e.origin # "backend" => ~Allowed(e)
 CdefNeverInvalidType == e.ffi = "inline" /\ e.api = "cdef" /\ e.cls \in InvalidType => ~Allowed(e)
+OverLimitOnlyError == e.ffi = "compiled" /\ e.need = 1201 /\ Allowed(e) => e.cls = "ffi.error"
+AtLimitFree == e.ffi = "compiled" /\ e.api = "typeof" /\ e.cls = "ok" /\ e.need = 1200 => Allowed(e)
 CompiledNoCffiErrors == e.ffi = "compiled" /\ e.cls \in CffiErrors => ~Allowed(e)
 =============================================================================
